@@ -236,7 +236,7 @@ def check(run) -> None:
                              InitGraphs=Def(c18.tla_set(["<<>>", chain4])), ItemIds=c18.seq_def([1, 2, 7]),
                              Scores=c18.seq_def([D] if q else [D // 4, D]), MaxItems=2 if q else 3, Ops=["turn"], InitGates=[True, False],
                              MaxDepth=1 if q else 2)
-    res = c18.tlc_retry(run, "Gel", make_cfg(consts, c18.INVS, c18.PROPS, spec="SpecD"), name="turns", workers=8, timeout_s=900,
+    res = c18.tlc_retry(run, "Gel", make_cfg(consts, c18.INVS, c18.PROPS, spec="SpecD"), name="turns", workers=1, timeout_s=900,
                         defs=split_defs(consts))
     run.model_must_hold(res)
     small = {"NN": 4, "NLow": 2}
